@@ -156,7 +156,7 @@ def harnesses(tier):
         hs.append(Harness("merge_sort%s" % lens, dict(lens=lens), sym_merge_sort, real="merge_sort",
                           functions=[U.merge_sort, U.get_next_row, U.csv_row_iterator], bounds=dict(inputs=len(lens), rows=lens, chunk="1..max+1"), stubs=stubs,
                           assumptions=["each input is sorted by score, non-increasing (ties allowed)", "every input has >= 1 row"]))
-    for lens in ([[2, 1], [2, 2], [1, 2, 1]] if tier == "quick" else [[2, 1], [2, 2], [3, 2], [1, 2, 1], [2, 2, 2]]):
+    for lens in ([[2, 1], [2, 2], [3, 1], [1, 2, 1]] if tier == "quick" else [[2, 1], [2, 2], [3, 2], [1, 2, 1], [2, 2, 2]]):
         hs.append(Harness("merge_sort%s,parquet" % lens, dict(lens=lens, suffix=".parquet"), sym_merge_sort, real="merge_sort",
                           functions=[U.merge_sort, U.get_next_row, U.parquet_row_iterator], bounds=dict(inputs=len(lens), rows=lens, chunk="1..max+1"),
                           stubs=stubs + ["pyarrow ParquetFile.iter_batches -> VFS contract (probed)"],
